@@ -48,6 +48,7 @@ pub const SLATE_MUTATIONS: &[&str] = &[
 	"com_add_other",
 	"com_swap_proof",
 	"com_replace_other",
+	"com_split_own",
 ];
 
 fn sk_from(arg: u64) -> SecretKey {
@@ -376,6 +377,66 @@ pub fn mutate_slate(ex: &Exec, m: usize, kind: &str, arg: u64) -> Option<Slate> 
 					let o = other?;
 					outs[i] = Output::new(outs[i].features(), outs[i].commitment(), o.proof);
 				}
+			}
+			let mut tx2 = tx.clone();
+			tx2.body = tx2.body.replace_outputs(&outs);
+			s.tx = Some(tx2);
+		}
+		"com_split_own" => {
+			// a Byzantine recipient replaces its one output by several that add up to
+			// the same commitment (values and blinding factors): sums, signatures and
+			// range proofs all stay valid, only the transaction got heavier than the fee
+			// the sender chose pays for
+			use grin_core::core::{Output, OutputFeatures};
+			use grin_keychain::{Keychain, SwitchCommitmentType};
+			let tx = s.tx.clone()?;
+			let mut found = None;
+			'search: for (oi, out) in tx.outputs().iter().enumerate() {
+				for w in 0..ex.world.wallets.len() {
+					if !ex.world.is_open(w) {
+						continue;
+					}
+					for rec in ex.world.snap(w).outputs.iter() {
+						if rec.status == grin_wallet_libwallet::OutputStatus::Unconfirmed
+							&& rec.value >= 8 && ex.world.commit_of(w, rec) == out.commitment()
+						{
+							found = Some((oi, w, rec.clone()));
+							break 'search;
+						}
+					}
+				}
+			}
+			let (oi, w, rec) = found?;
+			let r = ex.world.wallets[w]
+				.kc
+				.derive_key(rec.value, &rec.key_id, SwitchCommitmentType::Regular)
+				.ok()?;
+			let k = 2 + (arg % 3) as usize;
+			let mut rng = SimRng::new(arg ^ 0x5911);
+			let mut vals = vec![];
+			let mut left = rec.value;
+			for i in 0..k {
+				let v = if i + 1 == k { left } else { 1 + rng.below(left - (k - i - 1) as u64 - 1).min(left / 2) };
+				vals.push(v);
+				left -= v;
+			}
+			let mut blinds = vec![];
+			for i in 0..k - 1 {
+				blinds.push(sk_from(arg.wrapping_add(i as u64 * 77)));
+			}
+			// (sk_from takes the secp lock itself: draw every key before holding it)
+			let nonces: Vec<(SecretKey, SecretKey)> =
+				vals.iter().map(|v| (sk_from(arg ^ *v ^ 0x11), sk_from(arg ^ *v ^ 0x22))).collect();
+			let secp = static_secp_instance();
+			let secp = secp.lock();
+			let last = secp.blind_sum(vec![r], blinds.clone()).ok()?;
+			blinds.push(last);
+			let mut outs: Vec<Output> = tx.outputs().to_vec();
+			outs.remove(oi);
+			for ((v, b), (n1, n2)) in vals.iter().zip(blinds.iter()).zip(nonces.into_iter()) {
+				let c = secp.commit(*v, b.clone()).ok()?;
+				let proof = secp.bullet_proof(*v, b.clone(), n1, n2, None, None);
+				outs.push(Output::new(OutputFeatures::Plain, c, proof));
 			}
 			let mut tx2 = tx.clone();
 			tx2.body = tx2.body.replace_outputs(&outs);
